@@ -117,3 +117,120 @@ func c13verbosebuild(c *Ctx) {
 		}
 	})
 }
+
+func init() { reg("C13", "addonly", c13addOnly) }
+
+// c13addOnly: loggers configured with Add* calls only - they KEEP the built-in standard devices and get one to three
+// further normal destinations and zero to two further error destinations (the README's "tty+file" set-up, grown). One of
+// the added normal destinations fails. Oracle per record: every normal destination (stdout included) is handed a
+// normal-class record once, every error destination (stderr included) an error-class record once, nobody else gets it;
+// the diagnostic about the failure goes to warning destinations only (the error set), at most once each.
+func c13addOnly(c *Ctx) {
+	fds, err := captureFds()
+	if err != nil {
+		c.R.Violation(-1, "harness", "C13/harness", err.Error(), nil)
+		return
+	}
+	slog.SetFlags((slog.GetFlags() | slog.LnoInterrupt) &^ slog.Lcaller)
+	log := mon.NewLog()
+	c.Each(func(idx int, r *gen.R) {
+		nN := 1 + idx%3       // added normal destinations
+		nE := (idx / 3) % 3   // added error destinations
+		bad := (idx / 9) % nN // which of the added normal ones fails
+		f := Format((idx / 27) % 3)
+		lg := slog.New(fmt.Sprintf("ao%d", idx)).Root()
+		if (idx/81)%2 == 1 {
+			lg = lg.New("kid")
+		}
+		var normal, errs []string
+		for i := 0; i < nN; i++ {
+			w := mon.New(log, fmt.Sprintf("N%d", i), mon.ShapePlain)
+			if i == bad {
+				w.Core().Fail = func(int, []byte) (bool, int) { return true, 0 }
+			}
+			lg.AddWriter(w)
+			normal = append(normal, fmt.Sprintf("N%d", i))
+		}
+		for i := 0; i < nE; i++ {
+			lg.AddErrorWriter(mon.New(log, fmt.Sprintf("E%d", i), mon.ShapePlain))
+			errs = append(errs, fmt.Sprintf("E%d", i))
+		}
+		setFormat(lg, f)
+		lg.SetLevel(slog.AlwaysLevel)
+		desc := map[string]any{"format": f.String(), "added_normal_destinations": nN, "added_error_destinations": nE, "failing": fmt.Sprintf("N%d", bad), "built_with": "AddWriter / AddErrorWriter only (the standard devices stay)"}
+		for ci, sev := range []slog.Level{slog.InfoLevel, slog.ErrorLevel, slog.InfoLevel, slog.WarnLevel, slog.DebugLevel} {
+			id := fmt.Sprintf("#ao%d-%d#", idx, ci)
+			log.Reset()
+			m1, m2 := fds.mark()
+			panicked := ""
+			func() {
+				defer func() {
+					if e := recover(); e != nil {
+						panicked = fmt.Sprint(e)
+					}
+				}()
+				c.R.JournalNote(fmt.Sprintf("addonly %v sev=%v %s", desc, sev, id))
+				lg.LogAttrs(bg, sev, "rec "+id, "k", ci)
+			}()
+			sig := func(clause string) string { return "C13/" + clause + "/add-only/" + className(sev) }
+			if panicked != "" {
+				c.R.Violation(idx, "returns-normally", sig("returns-normally"), "the logging call panicked: "+panicked, desc)
+				return
+			}
+			b1, b2 := fds.since(m1, m2)
+			own, diags := map[string]int{}, map[string]int{}
+			for _, e := range log.Events() {
+				if e.Kind != mon.EvWrite {
+					continue
+				}
+				if bytes.Contains(e.Data, []byte(diagText)) {
+					diags[e.W]++
+				} else if bytes.Contains(e.Data, []byte(id)) {
+					own[e.W]++
+				}
+			}
+			own["stdout"], own["stderr"] = bytes.Count(b1, []byte(id)), bytes.Count(b2, []byte(id))
+			diags["stdout"], diags["stderr"] = bytes.Count(b1, []byte(diagText)), bytes.Count(b2, []byte(diagText))
+			normalClass := !builtinErrorClass(sev)
+			for _, wn := range append([]string{"stdout"}, normal...) {
+				want := 0
+				if normalClass {
+					want = 1
+				}
+				if own[wn] != want {
+					c.R.Violation(idx, "other-destinations", sig("other-destinations"), fmt.Sprintf("normal destination %s was handed the record %d time(s), expected %d (observed %v)", wn, own[wn], want, own), desc)
+					return
+				}
+				if diags[wn] != 0 {
+					c.R.Violation(idx, "diagnostic", sig("diagnostic"), fmt.Sprintf("the report about the failing destination went to the NORMAL destination %s (%d time(s)); warning destinations are stderr and %v (observed %v)", wn, diags[wn], errs, diags), desc)
+					return
+				}
+			}
+			for _, wn := range append([]string{"stderr"}, errs...) {
+				want := 0
+				if !normalClass {
+					want = 1
+				}
+				if own[wn] != want {
+					c.R.Violation(idx, "other-destinations", sig("other-destinations"), fmt.Sprintf("error destination %s was handed the record %d time(s), expected %d (observed %v)", wn, own[wn], want, own), desc)
+					return
+				}
+				if diags[wn] > 1 || (diags[wn] > 0 && !normalClass) {
+					c.R.Violation(idx, "diagnostic", sig("diagnostic"), fmt.Sprintf("warning destination %s got %d reports for one record (severity class normal: %v)", wn, diags[wn], normalClass), desc)
+					return
+				}
+			}
+			if normalClass {
+				c.R.Add("calls_with_a_failing_write", 1)
+			}
+			if diags["stderr"] > 0 {
+				c.R.Add("diagnostic_records_seen", 1)
+			}
+			c.R.Add("add_only_records_judged", 1)
+		}
+		c.R.NonTrivial("addonly", idx)
+		if c.R.WantSample() {
+			c.R.Sample(idx, desc, "every destination of the record's class was handed it once; reports about the failure only at warning destinations")
+		}
+	})
+}
